@@ -789,7 +789,9 @@ META = {
             "its rule under the reported bindings with the premises in body order, leaves are base facts in the store, absence "
             "leaves are ground and genuinely absent, equalities and inequalities hold, no fact is its own ancestor); every proof "
             "the reference explainer builds is accepted; for a transform-free program with ground negation every fact of the "
-            "(stratified) least model has an accepted proof. On every run generated programs (mutual recursion with cycle cuts, "
+            "(stratified) least model has an accepted proof in the explainer's table - proved with two steps as hypotheses "
+            "(the store judges a layer's negated atoms like the completed lower strata; the explainer's fuel suffices), see "
+            "proof_exists_partial. On every run generated programs (mutual recursion with cycle cuts, "
             "closures, negation, (in)equalities, equalities that bind fresh variables, initial facts of derived predicates, "
             "let-transforms in recorded mode) are evaluated by the real engine with and without a MemoryRecorder; for every "
             "stored fact the proofs of provenance.Explain and BuildFromRecording (several MaxProofs / MaxDepth) are judged by "
@@ -797,5 +799,5 @@ META = {
             "content, or a store changed by the recorder are violations. Thorough adds an exhaustive 2-rule schema.",
     "note": "Trusted: Coq kernel + vm_compute; the Go-proof-to-tree conversion in harness/c15 and the hand-written Datalog model "
             "(tied to the engine by C01). After fixes F9, F9b, N16. Known findings: N80/N81 (recorded mode under cycles), N82 "
-            "(function application in a head), N17, F8. Identifiers are checked per run, not modelled.",
+            "(function application in a head: Explain panics), N83 (wildcard in a body atom, recorded mode), N17, F8. Identifiers are checked per run, not modelled.",
 }
